@@ -34,7 +34,7 @@ def real_dtype(scalar_type: str):
     return np.dtype(_SCALARS[str(np.dtype(scalar_type))][1])
 
 
-class Timeout(Exception):
+class Timeout(BaseException):
     """A symbolic preprocessing / code generation step exceeded its wall-clock budget (case is inconclusive)."""
 
 
@@ -55,11 +55,38 @@ def time_limit(seconds):
 
     old = signal.signal(signal.SIGALRM, handler)
     signal.setitimer(signal.ITIMER_REAL, seconds)
+    # memory budget for the symbolic phase: UFL's geometry lowering can allocate tens of GB on pathological expressions (seen:
+    # 60 GB, OOM-killed worker).  The soft address-space limit is raised by VF_MEM_CAP_GB over the current size and restored
+    # afterwards (sanitizer-built children need an unlimited address space); exhaustion surfaces as MemoryError -> OutOfBudget.
+    lim = None
+    try:
+        import resource
+
+        cap = float(os.environ.get("VF_MEM_CAP_GB", "4"))
+        with open("/proc/self/statm") as fh:
+            vm = int(fh.read().split()[0]) * os.sysconf("SC_PAGE_SIZE")
+        lim = resource.getrlimit(resource.RLIMIT_AS)
+        soft = int(vm + cap * 2**30)
+        if lim[1] == resource.RLIM_INFINITY or soft <= lim[1]:
+            resource.setrlimit(resource.RLIMIT_AS, (soft, lim[1]))
+        else:
+            lim = None
+    except (OSError, ValueError, ImportError):
+        lim = None
     try:
         yield
+    except MemoryError as e:
+        import gc
+
+        gc.collect()
+        raise Timeout(f"exceeded the memory budget of the symbolic phase ({os.environ.get('VF_MEM_CAP_GB', '4')} GB)") from e
     finally:
         signal.setitimer(signal.ITIMER_REAL, 0)
         signal.signal(signal.SIGALRM, old)
+        if lim is not None:
+            import resource
+
+            resource.setrlimit(resource.RLIMIT_AS, lim)
 
 
 class CompileError(Exception):
@@ -91,9 +118,11 @@ def generate_code(objects, options: dict | None = None, prefix: str = "vf", obje
     import ffcx.naming
 
     p = ffcx_options(options)
-    code, _suffixes = ffcx.compiler.compile_ufl_objects(
-        list(objects), options=p, namespace=prefix, object_names=object_names
-    )
+    # time and memory budget of the symbolic phase (raises Timeout): every caller gets it
+    with time_limit(float(os.environ.get("VF_CODEGEN_TIMEOUT", "150"))):
+        code, _suffixes = ffcx.compiler.compile_ufl_objects(
+            list(objects), options=p, namespace=prefix, object_names=object_names
+        )
     names = []
     i_form = 0
     for o in objects:
@@ -165,8 +194,7 @@ class Module:
 def compile_module(objects, options=None, workdir=None, name="m", cc="gcc", cflags=("-O1",), prefix="vf") -> Module:
     """Generate + compile + load.  Raises Rejected (Python exception in FFCx) or CompileError."""
     try:
-        with time_limit(float(os.environ.get("VF_CODEGEN_TIMEOUT", "150"))):
-            header, source, names = generate_code(objects, options, prefix=prefix)
+        header, source, names = generate_code(objects, options, prefix=prefix)
     except (KeyboardInterrupt, Timeout):
         raise
     except BaseException as e:  # noqa: BLE001 - classification is the point (UFL's ArityMismatch derives from BaseException)
